@@ -7,7 +7,9 @@ import (
 	"fmt"
 	"math"
 	"path/filepath"
+	"sync"
 	"testing"
+	"time"
 
 	"github.com/platinummonkey/go-concurrency-limits/core"
 	"github.com/platinummonkey/go-concurrency-limits/limit"
@@ -380,6 +382,25 @@ func TestLimitRandom(t *testing.T) {
 			}
 			i++
 			w.write(J{"ev": "RunEnd", "trace": k, "i": i, "mode": "healthy", "est": est, "n": cnt, "bound": bound, "from": start, "target": target})
+			// dwell at the ceiling: the boundary values of the estimate (just below the cap, at the cap, one step
+			// below it after a drop) are where table look-ups and clamps go wrong
+			for j := 0; j < 40 && !dead && cfg.Algo != "aimd"; j++ {
+				hr := rtt
+				if b, set := s.baseline(); set {
+					hr = b
+				}
+				if cfg.Algo == "gradient2" {
+					hr = 5000
+				}
+				switch {
+				case j%9 == 7:
+					emit("dwell", hr, est+1, true)
+				case j%9 == 8:
+					emit("dwell", hr*2, est+1, false)
+				default:
+					emit("dwell", hr, est+1, false)
+				}
+			}
 		}
 	}
 }
@@ -614,4 +635,78 @@ func TestVegasReplay(t *testing.T) {
 		reps = append(reps, rep)
 	}
 	writeJSON(t, filepath.Join(outDir(t), "vegas_replay.json"), reps)
+}
+
+// TestNotifyAttack realises, in real time, the interleaving in which two samples that both change the estimate
+// race (C16): the listener is parked inside the first notification; a second sample is started. On a tree where
+// listeners are notified under the algorithm's lock the second sample cannot proceed; where it can, its
+// notification overtakes the parked one. Once both have returned the last value delivered must equal
+// EstimatedLimit.
+func TestNotifyAttack(t *testing.T) {
+	w := newNdWriter(t, filepath.Join(outDir(t), "notify_trace.ndjson"))
+	defer w.close()
+	wait := 30 * time.Millisecond
+	if thorough() {
+		wait = 200 * time.Millisecond
+	}
+	overtook := 0
+	k := 0
+	for _, algo := range []string{"aimd", "vegas", "gradient", "gradient2"} {
+		for rep := 0; rep < 3; rep++ {
+			s := newAlgoSUT(newRng(seed()+uint64(rep), uint64(k)), algo, "none")
+			// prime: a baseline and a few saturated samples
+			for i := 0; i < 3; i++ {
+				s.outer.OnSample(0, 1000, s.outer.EstimatedLimit()+1, false)
+			}
+			var mu sync.Mutex
+			var delivered []int
+			first := true
+			parked := make(chan struct{})
+			resume := make(chan struct{})
+			// the listener applies the value at the end of the call (like a strategy's SetLimit behind a slow path)
+			s.outer.NotifyOnChange(func(v int) {
+				mu.Lock()
+				f := first
+				first = false
+				mu.Unlock()
+				if f {
+					close(parked)
+					<-resume
+				}
+				mu.Lock()
+				delivered = append(delivered, v)
+				mu.Unlock()
+			})
+			doneA, doneB := make(chan struct{}), make(chan struct{})
+			go func() { s.outer.OnSample(0, 1000, s.outer.EstimatedLimit()+1, true); close(doneA) }()
+			select {
+			case <-parked:
+			case <-doneA:
+				// this sample did not notify (e.g. a probe): nothing to race with
+				close(resume)
+				k++
+				continue
+			case <-time.After(time.Second):
+				t.Fatalf("%s: first sample neither notified nor returned", algo)
+			}
+			go func() { s.outer.OnSample(0, 1000, 100000, true); close(doneB) }()
+			select {
+			case <-doneB:
+				overtook++
+			case <-time.After(wait):
+			}
+			close(resume)
+			<-doneA
+			<-doneB
+			mu.Lock()
+			last := -1
+			if len(delivered) > 0 {
+				last = delivered[len(delivered)-1]
+			}
+			mu.Unlock()
+			w.write(J{"ev": "Concurrent", "trace": k, "i": 0, "algo": algo, "last": last, "est": s.outer.EstimatedLimit(), "delivered": delivered})
+			k++
+		}
+	}
+	writeJSON(t, filepath.Join(outDir(t), "notify.json"), J{"scenarios": k, "second_sample_overtook_the_parked_notification": overtook})
 }
